@@ -11,6 +11,9 @@ package pppoe
 //	y <key> <proto> <sid>                           Registry.Release by another party -> ok
 //	l <key>                                         Registry.Lookup -> nil | o:...
 //	Z <svlan> <cvlan> <machex|-> <sidhex> <mixed>   claim+release on a component with exclusivity == nil -> ev[]
+//	G <j> <x|y> <key> <proto> <sid>                 arm: run this Claim/Release of another party immediately before the
+//	                                                j-th registry call of the NEXT C/R op (after it, if it makes fewer) -> armed;
+//	                                                the C/R token gets /g:<result> (fired inside) or /a:<result> (after return)
 import (
 	"bufio"
 	"encoding/hex"
@@ -46,6 +49,56 @@ func (b *c17Bus) Stats() events.Stats                                   { return
 func (b *c17Bus) SetDebugTopics([]string)                               {}
 func (b *c17Bus) DebugTopics() []string                                 { return nil }
 func (b *c17Bus) Close() error                                          { return nil }
+
+// c17Gate wraps the real Registry behind the ExclusivityRegistry interface.  When armed, it runs one
+// "interloper" registry operation of another party immediately before the component's j-th registry
+// call of the current call-site invocation (0-based) - i.e. the interloper is linearized exactly
+// between two registry calls of the call site if the call site makes more than one.  It changes no
+// result of the registry.
+type c17Gate struct {
+	inner  *session.Registry
+	armed  bool
+	j      int
+	calls  int
+	fire   func() string
+	result string
+	inside bool
+}
+
+func (g *c17Gate) pre() {
+	if g.armed && g.calls == g.j {
+		g.armed = false
+		g.inside = true
+		g.result = g.fire()
+	}
+	g.calls++
+}
+func (g *c17Gate) Claim(k session.TupleKey, o session.Owner) *session.Owner {
+	g.pre()
+	return g.inner.Claim(k, o)
+}
+func (g *c17Gate) Release(k session.TupleKey, o session.Owner) { g.pre(); g.inner.Release(k, o) }
+func (g *c17Gate) IsOwner(k session.TupleKey, o session.Owner) bool {
+	g.pre()
+	return g.inner.IsOwner(k, o)
+}
+func (g *c17Gate) Lookup(k session.TupleKey) *session.Owner { g.pre(); return g.inner.Lookup(k) }
+
+// after the call site returned: an interloper that did not fire inside runs now
+func (g *c17Gate) finish() string {
+	tag := "g"
+	if g.armed {
+		g.armed = false
+		g.result = g.fire()
+		tag = "a"
+	}
+	r := "/" + tag + ":" + g.result
+	if g.fire == nil {
+		r = ""
+	}
+	g.fire, g.inside, g.calls = nil, false, 0
+	return r
+}
 
 func c17Str(tok string) string {
 	if tok == "-" {
@@ -91,7 +144,8 @@ func c17Run(f []string) (out string) {
 	}()
 	reg := session.NewRegistry()
 	bus := &c17Bus{}
-	c := &Component{exclusivity: reg, eventBus: bus,
+	gate := &c17Gate{inner: reg}
+	c := &Component{exclusivity: gate, eventBus: bus,
 		sessions: map[string]*SessionState{}, sidIndex: map[uint16]*SessionState{}, sessionIDIndex: map[string]*SessionState{},
 		acctSessionIndex: map[string]*SessionState{}, usernameIndex: map[string]*SessionState{},
 		ipv4Index: map[string]*SessionState{}, ipv6Index: map[string]*SessionState{}}
@@ -114,12 +168,30 @@ func c17Run(f []string) (out string) {
 			nextSID++
 			if f[p] == "C" {
 				bus.evs = nil
+				gate.calls = 0
 				c.addToIndexes(sess)
-				res = append(res, "ev["+strings.Join(bus.evs, ",")+"]")
+				res = append(res, "ev["+strings.Join(bus.evs, ",")+"]"+gate.finish())
 			} else {
+				gate.calls = 0
 				c.removeFromIndexes(sess)
-				res = append(res, "ok")
+				res = append(res, "ok"+gate.finish())
 			}
+			p += 6
+		case "G":
+			// G <j> <x|y> <key> <proto> <sid>: arm the gate for the NEXT C / R op
+			j, _ := strconv.Atoi(f[p+1])
+			kind := f[p+2]
+			gk := c17Key(f[p+3])
+			gown := session.Owner{Protocol: session.Protocol(c17Str(f[p+4])), SessionID: c17Str(f[p+5]), Key: gk}
+			gate.armed, gate.j, gate.calls = true, j, 0
+			gate.fire = func() string {
+				if kind == "x" {
+					return c17ShowOwner(reg.Claim(gk, gown))
+				}
+				reg.Release(gk, gown)
+				return "ok"
+			}
+			res = append(res, "armed")
 			p += 6
 		case "Z":
 			// the same call on a component built without a registry (exclusivity == nil): nothing may happen
